@@ -52,6 +52,9 @@ type C10Case struct {
 	Kind     string // string | int | slice | slice-any | map | map-any | chan
 	Str      []byte `json:",omitempty"`
 	N        int    `json:",omitempty"`
+	IntType  string `json:",omitempty"` // int-typed: int8 uint8 int16 uint16 named16 int32 uint32 int64 uint64 uint uintptr
+	NV       int64  `json:",omitempty"` // int-typed: the limit (signed types)
+	UV       uint64 `json:",omitempty"` // int-typed: the limit (unsigned types)
 	Elems    []int  `json:",omitempty"` // slice elements / channel prefill / map values by key index
 	Nil      []bool `json:",omitempty"` // slice-any / map-any: element i is a nil interface
 	NilKey   bool   `json:",omitempty"` // map-any: one key is the nil interface
@@ -244,8 +247,116 @@ func (w *world) apply(c *C10Case, m Mut, closed *bool) bool {
 	return false
 }
 
+type named16 int16
+
+type intT interface {
+	~int8 | ~uint8 | ~int16 | ~uint16 | ~int32 | ~uint32 | ~int64 | ~uint64 | ~uint | ~uintptr
+}
+
+func typedReal[T intT](n T) pairIt {
+	it := seq.NewIntegerIter(n)
+	return realIt{it.MoveNext, func() (string, string) { p := it.Current(); return show(p.Key), "-" }}
+}
+
+// typedInt dispatches on the integer type of an int-typed case.
+func typedInt(c *C10Case, y *refco.Y[refPair]) pairIt {
+	switch c.IntType {
+	case "int8":
+		if y != nil {
+			for i := range int8(c.NV) {
+				y.Yield(refPair{show(i), "-"})
+			}
+			return nil
+		}
+		return typedReal(int8(c.NV))
+	case "uint8":
+		if y != nil {
+			for i := range uint8(c.UV) {
+				y.Yield(refPair{show(i), "-"})
+			}
+			return nil
+		}
+		return typedReal(uint8(c.UV))
+	case "int16":
+		if y != nil {
+			for i := range int16(c.NV) {
+				y.Yield(refPair{show(i), "-"})
+			}
+			return nil
+		}
+		return typedReal(int16(c.NV))
+	case "uint16":
+		if y != nil {
+			for i := range uint16(c.UV) {
+				y.Yield(refPair{show(i), "-"})
+			}
+			return nil
+		}
+		return typedReal(uint16(c.UV))
+	case "named16":
+		if y != nil {
+			for i := range named16(c.NV) {
+				y.Yield(refPair{show(i), "-"})
+			}
+			return nil
+		}
+		return typedReal(named16(c.NV))
+	case "int32":
+		if y != nil {
+			for i := range int32(c.NV) {
+				y.Yield(refPair{show(i), "-"})
+			}
+			return nil
+		}
+		return typedReal(int32(c.NV))
+	case "uint32":
+		if y != nil {
+			for i := range uint32(c.UV) {
+				y.Yield(refPair{show(i), "-"})
+			}
+			return nil
+		}
+		return typedReal(uint32(c.UV))
+	case "int64":
+		if y != nil {
+			for i := range c.NV {
+				y.Yield(refPair{show(i), "-"})
+			}
+			return nil
+		}
+		return typedReal(c.NV)
+	case "uint64":
+		if y != nil {
+			for i := range c.UV {
+				y.Yield(refPair{show(i), "-"})
+			}
+			return nil
+		}
+		return typedReal(c.UV)
+	case "uint":
+		if y != nil {
+			for i := range uint(c.UV) {
+				y.Yield(refPair{show(i), "-"})
+			}
+			return nil
+		}
+		return typedReal(uint(c.UV))
+	case "uintptr":
+		if y != nil {
+			for i := range uintptr(c.UV) {
+				y.Yield(refPair{show(i), "-"})
+			}
+			return nil
+		}
+		return typedReal(uintptr(c.UV))
+	}
+	panic("bad integer type " + c.IntType)
+}
+
 func mkReal(c *C10Case, w *world) pairIt {
 	switch c.Kind {
+	case "int-typed":
+		return typedInt(c, nil)
 	case "string":
 		it := seq.NewStringIter(string(c.Str))
 		return realIt{it.MoveNext, func() (string, string) { p := it.Current(); return show(p.Key), show(p.Val) }}
@@ -282,6 +393,8 @@ func mkRef(c *C10Case, w *world) pairIt {
 			for i := range c.N {
 				y.Yield(refPair{show(i), "-"})
 			}
+		case "int-typed":
+			typedInt(c, y)
 		case "slice":
 			for i, v := range w.outer {
 				y.Yield(refPair{show(i), show(v)})
@@ -373,8 +486,8 @@ func playC10(c *C10Case, real bool) (h hist.H, visits []refPair, applied int) {
 				h = append(h, hist.Event{K: hist.Mut, H: -1, Op: fmt.Sprintf("mut%d", m.K), V: []int64{int64(m.I), int64(m.V)}, OK: -1})
 			}
 		}
-		if si > 4096 {
-			break
+		if si > c.stepCap() {
+			break // the consumer abandons the iterator (both sides at the same step)
 		}
 	}
 	return
@@ -521,6 +634,41 @@ func nthString(n int) ([]byte, bool) {
 	return out, true
 }
 
+// stepCap bounds the number of advances of one run; 16-bit limits are drained completely.
+func (c *C10Case) stepCap() int {
+	if c.Kind == "int-typed" {
+		switch c.IntType {
+		case "int16", "uint16", "named16":
+			return 70000
+		}
+		return 600
+	}
+	return 4096
+}
+
+// genTypedInt draws an integer type and a limit at or near the boundaries of the type.
+func genTypedInt(r *prng.R, c *C10Case) {
+	types := []string{"int8", "uint8", "int8", "uint8", "int16", "uint16", "named16", "int32", "uint32", "int64", "uint64", "uint", "uintptr"}
+	c.IntType = types[r.Intn(len(types))]
+	bits := map[string]uint{"int8": 8, "uint8": 8, "int16": 16, "uint16": 16, "named16": 16, "int32": 32, "uint32": 32, "int64": 64, "uint64": 64, "uint": 64, "uintptr": 64}[c.IntType]
+	signed := c.IntType[0] != 'u'
+	if signed {
+		max := int64(1)<<(bits-1) - 1
+		vals := []int64{max, max - 1, max, 0, 1, 2, 3, -1, -max - 1, max / 2}
+		c.NV = vals[r.Intn(len(vals))]
+		if bits == 16 && c.NV > 300 && !r.Chance(1, 6) {
+			c.NV = int64(r.Intn(5)) // complete drains of 16-bit limits are kept rare (cost)
+		}
+	} else {
+		max := ^uint64(0) >> (64 - bits)
+		vals := []uint64{max, max - 1, max, 0, 1, 2, 3, max/2 + 1, max / 2, max/2 + 2}
+		c.UV = vals[r.Intn(len(vals))]
+		if bits == 16 && c.UV > 300 && !r.Chance(1, 6) {
+			c.UV = uint64(r.Intn(5))
+		}
+	}
+}
+
 func genSteps(r *prng.R, kind string, n int) []Step {
 	var steps []Step
 	for i := 0; i < n+2; i++ {
@@ -565,6 +713,9 @@ func genC10(r *prng.R, kind string) *C10Case {
 	case "int":
 		c.N = r.Range(-2, 6)
 		c.Steps = genSteps(r, kind, 6)
+	case "int-typed":
+		genTypedInt(r, c)
+		c.Steps = genSteps(r, kind, 4)
 	case "slice", "slice-any", "map", "map-any":
 		n := r.Intn(6)
 		if (kind == "map" || kind == "map-any") && r.Chance(1, 3) {
@@ -593,7 +744,7 @@ func genC10(r *prng.R, kind string) *C10Case {
 	return c
 }
 
-var c10Kinds = []string{"string", "int", "slice", "slice-any", "map", "map-any", "chan"}
+var c10Kinds = []string{"string", "int", "int-typed", "slice", "slice-any", "map", "map-any", "chan"}
 
 func C10(j *core.Job) {
 	perBatch, exhaustive := 40000, 1+24+576+13824
